@@ -17,6 +17,11 @@ def rsG (b : Nat) : Nat := rsMix b rsGens 0 0
 /-- the linear part of one polymod step -/
 def rsL (s : Nat) : Nat := ((s &&& Gen.rsLowMask) <<< Gen.rsWordBits) ^^^ rsG (s >>> Gen.rsTopShift)
 
+theorem xor_eq_zero_imp {a b : Nat} (h : a ^^^ b = 0) : a = b := by
+  have : a ^^^ (a ^^^ b) = b := by rw [← Nat.xor_assoc, Nat.xor_self, Nat.zero_xor]
+  rw [h, Nat.xor_zero] at this
+  exact this
+
 theorem rsMix_acc (b : Nat) (gs : List Nat) : ∀ (i acc : Nat), rsMix b gs i acc = acc ^^^ rsMix b gs i 0 := by
   induction gs with
   | nil => intro i acc; simp [rsMix]
@@ -24,8 +29,8 @@ theorem rsMix_acc (b : Nat) (gs : List Nat) : ∀ (i acc : Nat), rsMix b gs i ac
     intro i acc
     simp only [rsMix]
     by_cases h : ((b >>> i) &&& 1 != 0) = true
-    · rw [if_pos h, if_pos h, ih i (acc ^^^ g), ih i (0 ^^^ g), Nat.zero_xor, Nat.xor_assoc]
-    · rw [if_neg h, if_neg h]; exact ih i acc
+    · rw [if_pos h, if_pos h, ih (i + 1) (acc ^^^ g), ih (i + 1) (0 ^^^ g), Nat.zero_xor, Nat.xor_assoc]
+    · rw [if_neg h, if_neg h]; exact ih (i + 1) acc
 
 theorem bit_xor (x y : Nat) :
     (((x ^^^ y) &&& 1 != 0) = true) ↔ ¬ (((x &&& 1 != 0) = true) ↔ ((y &&& 1 != 0) = true)) := by
@@ -43,21 +48,23 @@ theorem rsMix_xor (b1 b2 : Nat) (gs : List Nat) :
     have hb := bit_xor (b1 >>> i) (b2 >>> i)
     rw [← Nat.shiftRight_xor_distrib] at hb
     by_cases h1 : ((b1 >>> i) &&& 1 != 0) = true <;> by_cases h2 : ((b2 >>> i) &&& 1 != 0) = true
-    · have h : ¬ (((b1 ^^^ b2) >>> i) &&& 1 != 0) = true := by rw [hb]; simp [h1, h2]
-      rw [if_neg h, if_pos h1, if_pos h2, rsMix_acc b1 gs i (0 ^^^ g), rsMix_acc b2 gs i (0 ^^^ g), ih]
+    · have h : ¬ (((b1 ^^^ b2) >>> i) &&& 1 != 0) = true :=
+        fun hx => (hb.mp hx) ⟨fun _ => h2, fun _ => h1⟩
+      rw [if_neg h, if_pos h1, if_pos h2, rsMix_acc b1 gs (i + 1) (0 ^^^ g), rsMix_acc b2 gs (i + 1) (0 ^^^ g), ih]
       simp only [Nat.zero_xor]
       have : ∀ a c : Nat, (g ^^^ a) ^^^ (g ^^^ c) = a ^^^ c := by
         intro a c
         have : (g ^^^ a) ^^^ (g ^^^ c) = (a ^^^ c) ^^^ (g ^^^ g) := by ac_rfl
         rw [this, Nat.xor_self, Nat.xor_zero]
       rw [this]
-    · have h : (((b1 ^^^ b2) >>> i) &&& 1 != 0) = true := by rw [hb]; simp [h1, h2]
-      rw [if_pos h, if_pos h1, if_neg h2, rsMix_acc _ gs i (0 ^^^ g), rsMix_acc b1 gs i (0 ^^^ g), ih]
+    · have h : (((b1 ^^^ b2) >>> i) &&& 1 != 0) = true := hb.mpr (fun hiff => h2 (hiff.mp h1))
+      rw [if_pos h, if_pos h1, if_neg h2, rsMix_acc _ gs (i + 1) (0 ^^^ g), rsMix_acc b1 gs (i + 1) (0 ^^^ g), ih]
       ac_rfl
-    · have h : (((b1 ^^^ b2) >>> i) &&& 1 != 0) = true := by rw [hb]; simp [h1, h2]
-      rw [if_pos h, if_neg h1, if_pos h2, rsMix_acc _ gs i (0 ^^^ g), rsMix_acc b2 gs i (0 ^^^ g), ih]
+    · have h : (((b1 ^^^ b2) >>> i) &&& 1 != 0) = true := hb.mpr (fun hiff => h1 (hiff.mpr h2))
+      rw [if_pos h, if_neg h1, if_pos h2, rsMix_acc _ gs (i + 1) (0 ^^^ g), rsMix_acc b2 gs (i + 1) (0 ^^^ g), ih]
       ac_rfl
-    · have h : ¬ (((b1 ^^^ b2) >>> i) &&& 1 != 0) = true := by rw [hb]; simp [h1, h2]
+    · have h : ¬ (((b1 ^^^ b2) >>> i) &&& 1 != 0) = true :=
+        fun hx => hb.mp hx ⟨fun a => absurd a h1, fun a => absurd a h2⟩
       rw [if_neg h, if_neg h1, if_neg h2, ih]
 
 theorem rsG_xor (a b : Nat) : rsG (a ^^^ b) = rsG a ^^^ rsG b := rsMix_xor a b rsGens 0
@@ -109,10 +116,12 @@ theorem rsG_low_inj : ∀ b, b < 1024 → rsG b % 1024 = 0 → b = 0 := by decid
 theorem rsL_eq_zero (d : Nat) (hd : d < 2 ^ 30) (h : rsL d = 0) : d = 0 := by
   unfold rsL at h
   have heq : (d &&& Gen.rsLowMask) <<< Gen.rsWordBits = rsG (d >>> Gen.rsTopShift) := by
-    rwa [Nat.xor_eq_zero_iff] at h
+    exact xor_eq_zero_imp h
   have hb : d >>> Gen.rsTopShift < 1024 := by
     rw [Nat.shiftRight_eq_div_pow]
-    exact Nat.div_lt_of_lt_mul (by simpa using hd)
+    exact Nat.div_lt_of_lt_mul (by
+      have : (2 : Nat) ^ Gen.rsTopShift * 1024 = 2 ^ 30 := by decide
+      omega)
   have hlow : rsG (d >>> Gen.rsTopShift) % 1024 = 0 := by
     rw [← heq, Nat.shiftLeft_eq]
     exact Nat.mul_mod_left _ _
@@ -161,7 +170,7 @@ theorem polymod_single_error (pre post : List Nat) (a a' : Nat) (ha : a < 2 ^ 30
   generalize pre.foldl rsStep Gen.rsInit = s
   have hd : a ^^^ a' < 2 ^ 30 := Nat.xor_lt_two_pow ha ha'
   have hd0 : a ^^^ a' ≠ 0 := by
-    intro h; exact hne (Nat.xor_eq_zero_iff.mp h)
+    intro h; exact hne (xor_eq_zero_imp h)
   have e : rsStep s a = rsStep s a' ^^^ (a ^^^ a') := by
     rw [rsStep_eq, rsStep_eq]
     have : rsL s ^^^ a' ^^^ (a ^^^ a') = (rsL s ^^^ a) ^^^ (a' ^^^ a') := by ac_rfl
@@ -170,8 +179,7 @@ theorem polymod_single_error (pre post : List Nat) (a a' : Nat) (ha : a < 2 ^ 30
   intro h
   have hz : rsLpow post.length (a ^^^ a') = 0 := by
     have := congrArg (fun t => post.foldl rsStep (rsStep s a') ^^^ t) h
-    simp only at this
-    rw [← Nat.xor_assoc, Nat.xor_self, Nat.zero_xor, Nat.xor_self] at this
+    simp only [← Nat.xor_assoc, Nat.xor_self, Nat.zero_xor] at this
     exact this
   exact rsLpow_ne_zero _ _ hd hd0 hz
 
@@ -232,11 +240,16 @@ theorem split30 (p : Nat) (hp : p < 2 ^ 30) :
         have : ¬ i - 20 < 10 := by omega
         simp [*]
 
+theorem polymod_three (vals : List Nat) (x y z : Nat) :
+    rs1024Polymod (vals ++ [x, y, z]) = rsStep (rsStep (rsStep (vals.foldl rsStep Gen.rsInit) x) y) z := by
+  simp only [rs1024Polymod, List.foldl_append, List.foldl_cons, List.foldl_nil]
+
+theorem rsStep_zero (s : Nat) : rsStep s 0 = rsL s := by rw [rsStep_eq, Nat.xor_zero]
+
 /-- the three words of `rs1024_create_checksum` make the polymod equal to 1 -/
-theorem polymod_create (vals : List Nat) (hv : ∀ v ∈ vals, v < 2 ^ 30) :
-    let p := rs1024Polymod (vals ++ [0, 0, 0]) ^^^ 1
+theorem polymod_create (vals : List Nat) (hv : ∀ v ∈ vals, v < 2 ^ 30) (p : Nat)
+    (hpdef : p = rs1024Polymod (vals ++ [0, 0, 0]) ^^^ 1) :
     rs1024Polymod (vals ++ [(p >>> 20) &&& 1023, (p >>> 10) &&& 1023, p &&& 1023]) = 1 := by
-  intro p
   have hP : rs1024Polymod (vals ++ [0, 0, 0]) < 2 ^ 30 := by
     apply polymod_lt
     intro v h
@@ -244,34 +257,35 @@ theorem polymod_create (vals : List Nat) (hv : ∀ v ∈ vals, v < 2 ^ 30) :
     rcases h with h | h | h | h
     · exact hv v h
     all_goals (subst h; decide)
-  have hp : p < 2 ^ 30 := Nat.xor_lt_two_pow hP (by decide)
+  have hp : p < 2 ^ 30 := by rw [hpdef]; exact Nat.xor_lt_two_pow hP (by decide)
   have hc : ∀ x : Nat, x &&& 1023 < 2 ^ 10 := by
     intro x
     have : x &&& 1023 ≤ 1023 := Nat.and_le_right
     omega
-  set c0 := (p >>> 20) &&& 1023
-  set c1 := (p >>> 10) &&& 1023
-  set c2 := p &&& 1023
-  have key : ∀ s : Nat, [c0, c1, c2].foldl rsStep s
-      = [0, 0, 0].foldl rsStep s ^^^ ((c0 <<< 20) ^^^ ((c1 <<< 10) ^^^ c2)) := by
-    intro s
-    simp only [List.foldl_cons, List.foldl_nil, rsStep_eq, Nat.xor_zero]
-    have e0 : rsL (rsL s ^^^ c0) = rsL (rsL s) ^^^ (c0 <<< 10) := by
-      rw [rsL_xor, rsL_small c0 (by have := hc (p >>> 20); omega)]
-    have e1 : rsL (rsL (rsL s) ^^^ (c0 <<< 10) ^^^ c1) = rsL (rsL (rsL s)) ^^^ (c0 <<< 20) ^^^ (c1 <<< 10) := by
-      rw [rsL_xor, rsL_xor, rsL_small c1 (by have := hc (p >>> 10); omega)]
-      have : c0 <<< 10 < 2 ^ 20 := by
-        rw [Nat.shiftLeft_eq]
-        calc c0 * 2 ^ 10 < 2 ^ 10 * 2 ^ 10 := Nat.mul_lt_mul_of_pos_right (hc _) (by decide)
-          _ = 2 ^ 20 := by decide
-      rw [rsL_small _ this, ← Nat.shiftLeft_add]
-    rw [e0, e1]
-    ac_rfl
-  unfold rs1024Polymod at hP ⊢
-  rw [List.foldl_append, key, ← List.foldl_append, split30 p hp]
-  show _ ^^^ (_ ^^^ 1) = 1
-  unfold rs1024Polymod
-  rw [← Nat.xor_assoc, Nat.xor_self, Nat.zero_xor]
+  have hsplit := split30 p hp
+  have b0 := hc (p >>> 20)
+  have b1 := hc (p >>> 10)
+  have b2 := hc p
+  generalize (p >>> 20) &&& 1023 = c0 at hsplit b0 ⊢
+  generalize (p >>> 10) &&& 1023 = c1 at hsplit b1 ⊢
+  generalize p &&& 1023 = c2 at hsplit b2 ⊢
+  rw [polymod_three] at hpdef ⊢
+  generalize vals.foldl rsStep Gen.rsInit = s at hpdef ⊢
+  rw [rsStep_zero, rsStep_zero, rsStep_zero] at hpdef
+  rw [rsStep_eq s c0, rsStep_eq _ c1, rsStep_eq _ c2]
+  have e0 : rsL (rsL s ^^^ c0) = rsL (rsL s) ^^^ (c0 <<< 10) := by
+    rw [rsL_xor, rsL_small c0 (by omega)]
+  have hc0 : c0 <<< 10 < 2 ^ 20 := by
+    rw [Nat.shiftLeft_eq]
+    calc c0 * 2 ^ 10 < 2 ^ 10 * 2 ^ 10 := Nat.mul_lt_mul_of_pos_right b0 (by decide)
+      _ = 2 ^ 20 := by decide
+  have e1 : rsL (rsL (rsL s) ^^^ (c0 <<< 10) ^^^ c1) = rsL (rsL (rsL s)) ^^^ (c0 <<< 20) ^^^ (c1 <<< 10) := by
+    rw [rsL_xor, rsL_xor, rsL_small c1 (by omega), rsL_small _ hc0, ← Nat.shiftLeft_add]
+  rw [e0, e1]
+  have e2 : rsL (rsL (rsL s)) ^^^ c0 <<< 20 ^^^ c1 <<< 10 ^^^ c2
+      = rsL (rsL (rsL s)) ^^^ (c0 <<< 20 ^^^ (c1 <<< 10 ^^^ c2)) := by
+    rw [Nat.xor_assoc, Nat.xor_assoc]
+  rw [e2, hsplit, hpdef, ← Nat.xor_assoc, Nat.xor_self, Nat.zero_xor]
 
 /-- `rs1024_verify_checksum(cs, data + rs1024_create_checksum(cs, data))` holds -/
 theorem verify_create (cs : Bytes) (data : List Nat) (hd : ∀ v ∈ data, v < 2 ^ 30) :
@@ -283,7 +297,7 @@ theorem verify_create (cs : Bytes) (data : List Nat) (hd : ∀ v ∈ data, v < 2
     rcases h with ⟨b, _, rfl⟩ | h
     · have := b.toNat_lt; omega
     · exact hd v h
-  have := polymod_create (cs.map (·.toNat) ++ data) hv
+  have := polymod_create (cs.map (·.toNat) ++ data) hv _ rfl
   simp only [List.append_assoc] at this ⊢
   rw [this]
   decide
